@@ -275,17 +275,26 @@ spec fn aux_word(slot: u32, value: u8) -> u32 { ((value as u32) << 26) | slot }
 spec fn apack(slot: u32, value: u8) -> u32 { ((value as u32) << 26) | (slot & 0x3ffffff) }
 
 fn get_slot ( coupon : u32 ) -> ( r : u32 ) ensures r == w_slot ( coupon ) {
+proof {
+assert ( coupon & 0x3ffffff == coupon % 0x4000000 && coupon & 0x3ffffff == 0x3ffffff & coupon ) by ( bit_vector ) ;
+}
 coupon & KEY_MASK_26 }
 
 
 fn get_value ( coupon : u32 ) -> ( r : u8 ) ensures r == w_val ( coupon ) , r <= 63 {
 proof {
 assert ( ( coupon >> 26 ) <= 63 ) by ( bit_vector ) ;
+assert ( coupon >> 26 == coupon / 0x4000000 && ( 1u32 << 26 ) == 0x4000000 ) by ( bit_vector ) ;
 }
 ( coupon >> KEY_BITS_26 ) as u8 }
 
 
 fn pack_coupon ( slot : u32 , value : u8 ) -> ( r : u32 ) ensures r == apack ( slot , value ) {
+proof {
+let v = value as u32 ;
+let s = slot ;
+assert ( ( v << 26 ) | ( s & 0x3ffffff ) == ( s & 0x3ffffff ) | ( v << 26 ) && s & 0x3ffffff == 0x3ffffff & s && s & 0x3ffffff == s % 0x4000000 ) by ( bit_vector ) ;
+}
 ( ( value as u32 ) << KEY_BITS_26 ) | ( slot & KEY_MASK_26 ) }
 
 
